@@ -195,8 +195,13 @@ func (bridge *ExprBridge) CompileExpressionWithStreamSQLFunctions(expression str
 		}
 	}
 
+	// The program is cached by text and run on every later row, so it must not be specialised to
+	// the value types of the row that happened to come first: compiled against that row, a text
+	// that is ill-typed for it (text in a numeric column) failed to compile - the item was NULL -
+	// while the same row, met after a well-typed one, ran on the cached program and gave a value.
+	// With an untyped environment every operand is checked when the program runs.
 	options := []expr.Option{
-		expr.Env(dataType),
+		expr.Env(map[string]any{}),
 	}
 
 	// 添加StreamSQL函数
